@@ -79,6 +79,8 @@ FIXED = [
  ("C20", "c20:resource-missing:Pattern", "importing a page copies the pattern and property-list resources", "an imported page whose content paints with a pattern (/P1 scn) arrived without /Pattern /P1"),
  ("C20", "c20:resource-missing:Properties", "importing a page copies the pattern and property-list resources", "an imported page whose marked content names a property list (/Tag /MC1 BDC) arrived without /Properties /MC1"),
  ("C12", "gate:xref-stream-of-encrypted-file", "the cross-reference stream is decoded without going through the stream cache", "reading the cross-reference stream object of an encrypted file gave the right data with a stream cache (loading had cached it before the decoder existed) and failed without one; and when a later section gives the xref stream's object number to an ordinary stream, the cached document returned the old cross-reference bytes for it (found by a seeding agent as a side remark)"),
+ ("C14", "crash:signal6:stack-overflow (DeviceN alternate)", "the alternate of a DeviceN colour space shares the nesting budget", "'7 0 obj [/DeviceN [/A] 7 0 R <<function>>]' used as a page colour space: ColorSpace read the alternate with a fresh depth budget and no guard, the stack overflowed and the process aborted (pointed out by a seeding agent; C14's fragment had DeviceN only as a direct value, so no substitution could make it refer to itself)"),
+ ("C14", "panic:pdf/src/object/stream.rs:pdf::object::stream::ObjectStream::get_object_slice:attempt to add with overflow", "object stream offsets are added with an overflow check", "an object stream whose offset table holds 18446744073709551615: /First + offset overflowed in get_object_slice (pointed out by a seeding agent; C14 now plants boundary numbers in offset tables)"),
 ]
 OPEN = [
  ("C20", "c20:resource-missing:ColorSpace", "an imported page whose content names a colour space resource (/CS1 cs) arrives without /ColorSpace: deep_clone_op does not copy colour space resources; a repair needs writers for most ColorSpace variants (ColorSpace::to_primitive is unimplemented!() except for three), so it is recorded"),
